@@ -225,6 +225,9 @@ func runC07(r *Run) {
 	ro.Done()
 	rs.Done()
 
+	// ---- the integrity check's verdict depends on the covered span only (shared with C04.span)
+	r.Borrow("C04", map[string]string{"C04.span": "C07.span"})
+
 	// ---- fresh: a reused destination carries nothing of its previous content
 	fr := r.Rule("C07.fresh", "on every path of a typed getter with a pointer receiver that reports success, every field of the destination (or the destination itself) has been assigned, directly or by the getter it delegates to: the result is a function of the message only, not of what the destination held before", 8)
 	checkFresh(r, fr, cl)
@@ -561,6 +564,80 @@ func checkFresh(r *Run, rc *RuleCtx, cl *closures) {
 		rc.Instance(fnName(fn), true, map[string]interface{}{"fn": fnName(fn), "destination_parts": names, "success_paths": nSucc})
 		if q.Exhausted {
 			rc.Violation(fn, fn.Pos(), "path exploration exhausted", "undecided")
+		}
+		// a destination slice that is reused (resliced from itself to a non-zero length) keeps its old
+		// bytes: they must all be cleared (a full zeroing loop over the field) before the success returns
+		if st, isSt := pt.Elem().Underlying().(*types.Struct); isSt {
+			for fi := 0; fi < st.NumFields(); fi++ {
+				fv := st.Field(fi)
+				if _, isSl := fv.Type().Underlying().(*types.Slice); !isSl {
+					continue
+				}
+				var reuse []*ssa.Store
+				for _, a := range fieldAccesses(fn, fv) {
+					s, ok := a.Instr.(*ssa.Store)
+					if !ok || a.Kind != "store" {
+						continue
+					}
+					if sl, isSlice := s.Val.(*ssa.Slice); isSlice && valueIsLoadOfField(sl.X, fv) {
+						if c, isC := constInt(sl.High); sl.High != nil && !(isC && c == 0) {
+							reuse = append(reuse, s)
+						}
+					}
+				}
+				if len(reuse) == 0 {
+					continue
+				}
+				// zeroing loops over the field
+				var zeroLoops []*Loop
+				loops := loopsOf(fn)
+				eachInstr(fn, func(b *ssa.BasicBlock, i int, in ssa.Instruction) {
+					s, ok := in.(*ssa.Store)
+					if !ok {
+						return
+					}
+					ia, isIA := s.Addr.(*ssa.IndexAddr)
+					if !isIA || !valueIsLoadOfField(ia.X, fv) {
+						return
+					}
+					if c, isC := constInt(s.Val); !isC || c != 0 {
+						return
+					}
+					if lp := inLoop(loops, b); lp != nil && (fullRangeLoopAllowingReturnExit(lp, ia.X, ia, fn) || countingLoopOver(lp, ia.X, ia)) {
+						zeroLoops = append(zeroLoops, lp)
+					}
+				})
+				idx := errorResultIndex(fn)
+				for _, s := range reuse {
+					// only the final reslice matters: one that no later reuse-store of the field follows
+					final := true
+					for _, s2 := range reuse {
+						if s2 != s && instrDominates(s, s2) {
+							final = false
+						}
+					}
+					if !final {
+						continue
+					}
+					rc.Instance(fnName(fn)+"|"+fv.Name()+" cleared after reuse", true, map[string]string{"fn": fnName(fn), "reused": fv.Name()})
+					for _, ret := range returnsOf(fn) {
+						c := &PathCtx{K: newKeyer(), assign: map[string]bool{}, phiSel: map[*ssa.Phi]ssa.Value{}, P: p}
+						if c.NilState(ret.Results[idx]) == -1 || !blockDominates(s.Block(), ret.Block()) {
+							continue
+						}
+						cleared := false
+						for _, zl := range zeroLoops {
+							if blockDominates(s.Block(), zl.Header) && blockDominates(zl.Header, ret.Block()) {
+								cleared = true
+							}
+						}
+						if !cleared {
+							rc.Violation(fn, instrPos(s), "reused "+fv.Name()+" not cleared", "the destination keeps its old backing bytes and nothing clears all of them before the getter reports success: bytes the value does not overwrite (a short value) show the address of an earlier message")
+							break
+						}
+					}
+				}
+			}
 		}
 	}
 }
